@@ -41,7 +41,15 @@ ASSUMPTIONS = [
 ]
 
 THREE = ("HP", "PS", "PC")
-MODES = ("detected", "truth", "truth_orig")
+MODES = ("detected", "truth", "truth_orig", "truth_per_region")
+# alternative readings of the ground truth that reproduce a known defect: (mode, failure key, what)
+ALTERNATIVES = (
+    ("truth_orig", "paired-mate-dropped",
+     "paired-end read: the alleles of the mate on the other strand are ignored (defect F12, create_read_from_group)"),
+    ("truth_per_region", "regions-read-fetched-per-region",
+     "--regions: a read overlapping several requested regions is delivered once per region by ReadSetReader (defect F23): "
+     "more than two copies make the group 'more than two primary alignments' and the read stays untagged"),
+)
 
 
 # ------------------------------------------------------------------------------------------------
@@ -186,28 +194,44 @@ def detected_reads(case, files, sample, chrom, idxs, regions):
     return out
 
 
-def truth_groups(case, inrecs, truth_of, sample, chrom, idxs, regions):
-    """(a) ground truth: the usable alignments of the sample per region, with the alleles the generator put in,
-    grouped by read name (request for the Lean model of create_read_from_group)"""
+def truth_groups(case, inrecs, truth_of, sample, chrom, idxs, regions, per_region=False):
+    """(a) ground truth: the usable alignments of the sample with the alleles the generator put in, grouped by read
+    name (request for the Lean model of create_read_from_group).
+
+    per_region=False: every alignment overlapping a requested region once, in file order (a read is one read however the
+    requested area is cut into regions; behaviour after fixes/F23.patch).
+    per_region=True: the code before F23: `_usable_alignments` fetches region by region, so an alignment overlapping k
+    regions is delivered k times, and `_alignments_to_reads` never moves its variant pointer back: a re-delivered
+    alignment only shows the variants at or right of the pointer."""
     o = case["opts"]
     ids = rg_ids(case, sample)
-    pos_ok = {case["variants"][chrom][i]["pos"] for i in idxs}
+    var_pos = sorted(case["variants"][chrom][i]["pos"] for i in idxs)
+    pos_ok = set(var_pos)
     groups, order, bx = {}, [], {}
-    for region in (regions if regions is not None else [(0, None)]):
-        for k, rec in enumerate(inrecs):
-            if rec["chrom"] != chrom or not overlaps(rec, region) or not usable(rec):
-                continue
-            if not o.get("ignore_read_groups") and rec["rg"] not in ids:
-                continue
-            t = truth_of[k]
-            q = 30 if not o.get("no_reference") else t["qual"]
-            rvs = [[case["variants"][chrom][i]["pos"], a, q] for i, a in t["truth"] if case["variants"][chrom][i]["pos"] in pos_ok]
-            if not rvs:
-                continue
-            if rec["name"] not in groups:
-                groups[rec["name"]] = []; order.append(rec["name"])
-            groups[rec["name"]].append([False, bool(rec["reverse"]), rec["start"], rec["end"], rvs])
-            bx[rec["name"]] = rec["bx"]
+    regs = regions if regions is not None else [(0, None)]
+    if per_region:
+        deliveries = [(k, rec) for region in regs for k, rec in enumerate(inrecs) if rec["chrom"] == chrom and overlaps(rec, region)]
+    else:
+        deliveries = [(k, rec) for k, rec in enumerate(inrecs) if rec["chrom"] == chrom and any(overlaps(rec, region) for region in regs)]
+    ptr = 0
+    for k, rec in deliveries:
+        if not usable(rec):
+            continue
+        if not o.get("ignore_read_groups") and rec["rg"] not in ids:
+            continue
+        while ptr < len(var_pos) and var_pos[ptr] < rec["start"]:
+            ptr += 1
+        floor = var_pos[ptr] if ptr < len(var_pos) else None
+        t = truth_of[k]
+        q = 30 if not o.get("no_reference") else t["qual"]
+        rvs = [[case["variants"][chrom][i]["pos"], a, q] for i, a in t["truth"]
+               if case["variants"][chrom][i]["pos"] in pos_ok and floor is not None and case["variants"][chrom][i]["pos"] >= floor]
+        if not rvs:
+            continue
+        if rec["name"] not in groups:
+            groups[rec["name"]] = []; order.append(rec["name"])
+        groups[rec["name"]].append([False, bool(rec["reverse"]), rec["start"], rec["end"], rvs])
+        bx[rec["name"]] = rec["bx"]
     return order, groups, bx
 
 
@@ -373,7 +397,7 @@ def run_case(ctx, case, d):
             alns_req = [[expected[k]["name"], bool(expected[k]["flag"] & 4), bool(expected[k]["flag"] & 256), bool(expected[k]["flag"] & 2048),
                          expected[k]["start"], expected[k]["bx"]] for k in idx_exp]
             reqs = {}
-            reads_by_name = {"detected": {}, "truth": {}, "truth_orig": {}}
+            reads_by_name = {m: {} for m in MODES}
             for mode in MODES:
                 samples_req = []
                 for s in used:
@@ -383,19 +407,19 @@ def run_case(ctx, case, d):
                         reads = detected_reads(case, files, s, chrom, idxs, regs) if not swapped else final[("reads", "detected", chrom, s)]
                         final[("reads", "detected", chrom, s)] = reads
                     else:
-                        order, groups, bx = truth_groups(case, inrecs, truth_of, s, chrom, idxs, regs)
-                        ans = ctx.model.ask("c10.group", threshold=100000, repaired=(mode == "truth"), groups=[groups[n] for n in order])
+                        order, groups, bx = truth_groups(case, inrecs, truth_of, s, chrom, idxs, regs, per_region=(mode == "truth_per_region"))
+                        ans = ctx.model.ask("c10.group", threshold=100000, repaired=(mode != "truth_orig"), groups=[groups[n] for n in order])
                         got = {n: a for n, a in zip(order, ans) if a is not None}
                         det_order = [r[0] for r in final[("reads", "detected", chrom, s)]]
                         names_sorted = [n for n in det_order if n in got] + sorted((n for n in got if n not in det_order), key=lambda n: (got[n][1][0][0] if got[n][1] else 0, n))
-                        reads = [[n, got[n][0], bx[n], got[n][1]] for n in names_sorted if got[n][1]]
+                        reads = [[n, got[n][0], bx[n], got[n][1]] for n in names_sorted]
                     for r in reads:
                         reads_by_name[mode][r[0]] = (s, info, r[3])
                     samples_req.append({"phase": info, "reads": reads})
                 reqs[mode] = dict(op="c10.chrom", ploidy=case["ploidy"], cutoff=(o.get("linked_read_distance_cutoff") if o.get("linked_read_distance_cutoff") is not None else 50000),
                                   ignoreLinked=bool(o.get("ignore_linked_read")), tagSupp=bool(o.get("tag_supplementary")), samples=samples_req, alns=alns_req)
             ans = ctx.model.ask_many([reqs[m] for m in MODES])
-            orig_tags = ans[2].get("tags")
+            alt_tags = {m: ans[MODES.index(m)].get("tags") for m, _, _ in ALTERNATIVES}
             adm_by_name, adm_by_bx = {}, {}
             bx_of = {expected[k]["name"]: expected[k]["bx"] for k in idx_exp}
             for a in ans:
@@ -443,9 +467,11 @@ def run_case(ctx, case, d):
                     if msg:
                         key = "best-agreeing" if mode == "detected" else "truth-alleles"
                         if mode == "truth":
-                            ent0 = reads_by_name["truth_orig"].get(rec["name"])
-                            if ent0 is not None and check_rule(case["ploidy"], ent0[1], ent0[2], hp, pc, ps) is None:
-                                key = "paired-mate-dropped"
+                            for m_, k_, _ in ALTERNATIVES:
+                                ent0 = reads_by_name[m_].get(rec["name"])
+                                if ent0 is not None and check_rule(case["ploidy"], ent0[1], ent0[2], hp, pc, ps) is None:
+                                    key = k_
+                                    break
                         ctx.fail(f"{'exchanged VCF, ' if swapped else ''}{chrom} {rec['name']} tagged HP={hp} PC={pc} PS={ps} but ({mode} alleles) {msg}",
                                  slim, key=key)
             # ---- correspondence with the Lean model
@@ -470,10 +496,10 @@ def run_case(ctx, case, d):
                     else:
                         # the alleles the generator put into the read give another decision than the ones whatshap saw
                         det = reads_by_name["detected"].get(rec["name"]); tru = reads_by_name["truth"].get(rec["name"])
-                        if orig_tags is not None and orig_tags[pos_] == impl:
-                            ctx.fail("paired-end read: the alleles of the mate on the other strand are ignored (defect F12, create_read_from_group): "
-                                     + what + f"; read as assembled by whatshap {det[2] if det else None}, both mates {tru[2] if tru else None}",
-                                     slim, key="paired-mate-dropped")
+                        alt = next(((k_, w_) for m_, k_, w_ in ALTERNATIVES if alt_tags[m_] is not None and alt_tags[m_][pos_] == impl), None)
+                        if alt:
+                            ctx.fail(alt[1] + ": " + what + f"; read as assembled by whatshap {det[2] if det else None}, "
+                                     f"alleles of the whole read {tru[2] if tru else None}", slim, key=alt[0])
                         else:
                             ctx.fail("tag does not follow from the alleles the read carries (ground truth): " + what +
                                      f"; detected read {det[2] if det else None}, true read {tru[2] if tru else None}", slim, key="truth-alleles")
